@@ -18,7 +18,7 @@ def distinct_nontrivial(cases, outs, nontrivial):
 
 def differential(chk: core.Check, driver: str, cases: list, to_coq, imports: str, *, run_fn="run",
                  describe=lambda c, o: "", region=lambda c, o: None, component="", more_cases=None,
-                 hashseed="0", chunk=300, extra_env=None, timeout=900, kind=lambda c: str(c.get("op", "")), per_kind=2):
+                 hashseed="0", chunk=300, extra_env=None, timeout=900, kind=lambda c: str(c.get("op", "")), per_kind=2, expand=None):
     """Returns (outs, corr_fail, orac_fail).  Adds violations to chk.
     region(c, o) -> id of a known finding covering this failing case, or None."""
     res = core.run_impl(driver, {"cases": cases}, hashseed=hashseed, extra_env=extra_env, timeout=timeout)
@@ -33,6 +33,9 @@ def differential(chk: core.Check, driver: str, cases: list, to_coq, imports: str
     outs = res
     if len(outs) != len(cases):
         raise core.HarnessError(f"driver {driver} returned {len(outs)} results for {len(cases)} cases")
+    if expand is not None:
+        cases, outs = expand(cases, outs)
+        chk.expanded = (cases, outs)
     terms = [to_coq(c, o) for c, o in zip(cases, outs)]
     corr, orac = core.run_cases(chk.prop, imports, terms, run_fn=run_fn, chunk=chunk)
     known = {k["id"]: k for k in core.known_findings(chk.prop)}
